@@ -358,8 +358,15 @@ impl ArchiveManager {
         let filename = format!("data.{id:03}");
         let path = self.base_path.join(filename);
 
-        // Create empty file
-        File::create(&path)
+        // Create the file if it is not there. An existing file is kept as it
+        // is: this manager may simply not have opened it yet (open_all was not
+        // called), and truncating it would destroy every object stored in it.
+        // open_archive() puts the write position at its end.
+        OpenOptions::new()
+            .write(true)
+            .create(true)
+            .truncate(false)
+            .open(&path)
             .map_err(|e| StorageError::Archive(format!("Failed to create archive: {e}")))?;
 
         // Open it for memory mapping
